@@ -47,6 +47,8 @@ var c14Corpus = []string{
 	`a:it\'s`, `"a" : b`, `a:b AND`, `(`, `a:[1 TO`, `!`, ``,
 	// accepted by the grammar but refused by validation (anything cached before the refusal must not come back as a result)
 	`a:b:c`, `(a OR b):c*`,
+	// float64 values holding whole numbers, and expressions only the constructors build
+	`a:[1.5 TO 5.0]`, `a:5.0 OR b:>=2.0`, "api:boost0", "api:fuzzy0", "api:rangefloat", "api:inlist",
 	// pairs of different queries that a cache keyed on a normalised form (printed tree, collapsed
 	// whitespace, case-folded text, column + shape) would confuse
 	`a:1 OR b:2 AND c:3`, `(a:1 OR b:2) AND c:3`, `n:7`, `n:"7"`, `t:"x  y"`, `t:"x y"`, `k:V`, `k:v`,
@@ -110,12 +112,29 @@ func sharedExpr(q string) *expr.Expression {
 	if e, ok := sharedExprs[q]; ok {
 		return e
 	}
-	e, err := lucene.Parse(q)
+	e, err := c14Build(q)
 	if err != nil {
 		e = nil
 	}
 	sharedExprs[q] = e
 	return e
+}
+
+// c14Build: the expression a corpus entry stands for - parsed, or ("api:" entries) built through
+// the public constructors with values Parse never produces (zero power / distance, float64 bounds
+// holding whole numbers): operations that "normalise" such values in place modify the expression.
+func c14Build(q string) (*expr.Expression, error) {
+	switch q {
+	case "api:boost0":
+		return expr.AND(expr.BOOST(expr.Eq("a", "b"), 0.0), expr.Eq("c", 5)), nil
+	case "api:fuzzy0":
+		return expr.OR(expr.FUZZY(expr.Lit("x"), 0), expr.Lit("y")), nil
+	case "api:rangefloat":
+		return expr.Rang("a", 1.5, 5.0, true), nil
+	case "api:inlist":
+		return expr.NOT(expr.IN("a", expr.LIST(expr.Lit("x"), expr.Lit(5.0), expr.Lit(7)))), nil
+	}
+	return lucene.Parse(q)
 }
 
 // one driver per process, shared by every Render / RenderParam call (as lucene.ToPostgres shares
@@ -533,7 +552,7 @@ func c14Eval(c core.Case) (res core.Result) {
 				return
 			}
 			if sh != nil {
-				fresh, err := lucene.Parse(oi.Query)
+				fresh, err := c14Build(oi.Query)
 				if err == nil && !reflect.DeepEqual(fresh, sh) {
 					add("pure", "shared-expression-modified "+oi.Op, fmt.Sprintf("after %s the shared expression of %q is %s", oi.Op, oi.Query, gostr(sh)), gostr(fresh))
 					return
@@ -704,7 +723,7 @@ func parseSchedCase(c core.Case) (ops []string, query string, first int, plan []
 // c14Judge is the per-schedule oracle. full: also compare the globals snapshot.
 func c14Judge(ops []string, query string, r *schedRun, results, seqRef []string, before string, full bool) *core.Obs {
 	if r.badPlan != "" {
-		return &core.Obs{Clause: "harness", Class: "bad-plan", Observed: r.badPlan, Expected: "a schedule that can be followed"}
+		return &core.Obs{Clause: "deterministic", Class: "schedule-not-reproducible", Observed: r.badPlan + " (the same schedule, started from the same call history, does not execute the same statements twice: behaviour depends on hidden state)", Expected: "executions are functions of their arguments: a recorded schedule can be followed again"}
 	}
 	for i := range ops {
 		if r.panics[i] != nil {
@@ -725,7 +744,7 @@ func c14Judge(ops []string, query string, r *schedRun, results, seqRef []string,
 		seenQ[q] = true
 		if sh := sharedExpr(q); sh != nil {
 			vsched.Hook = nil
-			fresh, err := lucene.Parse(q)
+			fresh, err := c14Build(q)
 			if err == nil && !reflect.DeepEqual(fresh, sh) {
 				return &core.Obs{Clause: "concurrent", Class: "shared-expression-modified", Observed: gostr(sh), Expected: gostr(fresh)}
 			}
